@@ -839,7 +839,9 @@ def resize (fx : Fixes) (e : Emu) (w h : Int) : M Emu :=
                       savedP := clampSaved e.savedP, savedA := clampSaved e.savedA,
                       bottom := h - 1, right := w - 1, top := if fx.f19 then 0 else e.top,
                       cur := { e.cur with row := 0, col := 0 }, lastCol := false, altActive := false }
+    let pen := e.cur.st
     let e ← reflow fx last old 0 e
+    let e := if fx.f112c then { e with cur := { e.cur with st := pen } } else e
     .ok { e with altActive := e.mode.smcup }
 
 /-! ### update(): one parsed sequence -/
